@@ -42,6 +42,46 @@ NEEDS = {
  "C19-2": ("StateCounts::total() omits the Failed slot", "a failure while other steps are pending (only the displayed total is wrong)"),
  "C20-1": ("truncate() steps back at most 2 bytes to a character boundary", "a cut landing on the last byte of a 4-byte character"),
  "C20-2": ("progress bar one-tick rule without the bar-size guard", "the running group bumped to the full width while steps are still wanted"),
+ "C01-r2-1": ("order-only inputs de-duplicated with swap_remove (pulls a validation input into the order-only section)", "a duplicated order-only input + a |@ input on the same build, the displaced producer finishing last, -j >= 2"),
+ "C01-r2-2": ("phony inputs promoted to order-only with the implicit count dropped", "a phony step with an implicit input whose producer is slow, a command step reaching it only through the phony"),
+ "C02-r2-1": ("rspfile written without truncation", "an rspfile left by an earlier build whose new content is shorter"),
+ "C02-r2-2": ("stat() no longer follows symlinks", "an input or discovered dep that is a symlink whose target is edited"),
+ "C03-r2-1": ("record dropped when a validation input does not exist yet at completion", "a |@ edge whose target finishes after the step, then another invocation"),
+ "C03-r2-2": ("discovered deps replaced only when the run reported some", "depfile binding removed, later re-run reports nothing, old deps keep triggering (4 invocations)"),
+ "C04-r2-1": ("pool table of the first load reused after the manifest is regenerated", "regeneration that changes a pool declaration + more ready pooled steps than the new depth"),
+ "C04-r2-2": ("a rule's pool binding memoised per rule", "rule-level `pool = $var` resolved differently by builds of the same rule"),
+ "C05-r2-1": ("wait status decoded by hand: death by a signal other than SIGINT counts as success", "the /bin/sh n2 waits on dying from SEGV/KILL/TERM"),
+ "C05-r2-2": ("recheck_ready skips inputs produced by phony steps", "order-only input through a phony group with a failing member + another generated input finishing meanwhile"),
+ "C06-r2-1": ("paths that expand to nothing are filtered out but the section counts are kept", "an empty expansion in front of a |@ section (or as last input)"),
+ "C06-r2-2": ("dependents lists of files without producer are freed at the end of every included file", "include + a consumer declared before a producer that follows the include + completion order"),
+ "C07-r2-1": ("obsolete records skipped with a relative seek (past EOF succeeds)", "a crash tearing a build record + a manifest edit making that record obsolete before the next run"),
+ "C07-r2-2": ("torn tail truncated lazily at the first build record, after its path records were appended", "a tear inside a path record and a next run that needs a new path record"),
+ "C08-r2-1": ("only explicit outputs are hashed", "an implicit output gained or moved in across a manifest edit while the file exists"),
+ "C08-r2-2": ("implicit inputs sorted by FileId at load", ">= 2 implicit inputs + an edit elsewhere that flips their first mention"),
+ "C09-r2-1": ("stat() of a symlink also stats the target with `?`", "a recorded header that is a symlink whose target is removed"),
+ "C09-r2-2": ("`deps = msvc` ignored for filtering when a depfile is also set", "a rule with both deps = msvc and depfile"),
+ "C10-r2-1": ("evaluate() returns \"\" when a cheaper length hint is 0", "a value made only of references to build-level bindings that are only references"),
+ "C10-r2-2": ("a build-level binding expanding to \"\" is treated as unset", "a build statement overriding a rule attribute with an empty value"),
+ "C11-r2-1": ("$in/$out fall through to user variables when the list is empty", "a user variable named in/out + a rule using $in + a build without explicit inputs"),
+ "C11-r2-2": ("re-binding a file-level variable to empty is dropped", "non-empty binding, later empty re-binding, later use"),
+ "C12-r2-1": ("an interior NUL inside a value is accepted", "a NUL in a command value of a step that really runs (worker thread panics, n2 hangs)"),
+ "C12-r2-2": ("unknown-target diagnostic abbreviated with a byte slice", "an unknown target longer than 64 bytes with a multi-byte character at byte 64"),
+ "C13-r2-1": ("canonicalisation skipped when no single part of a path needs it", "a path built from parts that meet separator to separator ($d/gen with d = out/)"),
+ "C13-r2-2": ("command-line targets canonicalised only when a pattern list matches", "a target with two adjacent separators of different kinds"),
+ "C14-r2-1": ("canonicalize_path remembers only one parent component", "a duplicate spelled with two back-to-back `..`"),
+ "C14-r2-2": ("add_build validates only explicit outputs", "a file produced elsewhere reappearing as an implicit output of a later statement"),
+ "C15-r2-1": ("read_depfile stops at the first target without prerequisites", ">= 2 targets, an empty one before a non-empty one"),
+ "C15-r2-2": ("format_parse_error searches the buffer without the NUL", "a stray backslash as the very last byte of a depfile"),
+ "C16-r2-1": ("rspfile opened without truncation", "a step with an rspfile re-running with shorter content"),
+ "C16-r2-2": ("failing hide_success steps lose their output", "a failing command under a rule with hide_success"),
+ "C17-r2-1": ("an empty discovered-deps list in a record is not applied on load", "a manifest generator with a depfile whose report becomes empty"),
+ "C17-r2-2": ("the manifest is no longer interned first (its FileId is reused across the reload)", "a regeneration that shifts file numbering"),
+ "C18-r2-1": ("want_build also visits discovered deps", "a recorded dep on a generated file without manifest path + a sub-target excluding its producer"),
+ "C18-r2-2": ("defaults naming non-outputs are dropped", "every `default` names a source file, no targets given"),
+ "C19-r2-1": ("reload only if build.ninja's mtime changed; phase-1 count added twice otherwise", "a write-if-changed generator that runs but leaves the manifest untouched"),
+ "C19-r2-2": ("ready_dependents passes the finished step instead of the dependent to set()", "a multi-output step with a phony dependent that it readies last"),
+ "C20-r2-1": ("progress bar tick rule without the bar-size clamp", "done group floors to full-1, tiny running group, non-zero want group"),
+ "C20-r2-2": ("last output line cut on raw bytes before decoding", "a running task on a tty whose last line is longer than the terminal with a multi-byte character at the cut"),
 }
 rows = []
 for d in sorted(glob.glob('/verif/seeded/*/meta.json')):
@@ -56,7 +96,8 @@ for d in sorted(glob.glob('/verif/seeded/*/meta.json')):
     missed = [k for k, v in det.items() if v['rc'] != 1]
     first = det.get(own, {}).get('first', '')
     key = first[first.rfind('[')+1:first.rfind(']')] if '[' in first else ''
-    rows.append(f"| {name} | {m.get('what_it_changes','')} | {m.get('needs_to_manifest','')} | {'yes' if m.get('confirmed') else 'no'} | {', '.join(caught) or '-'}{(' (' + key + ')') if key and own in caught else ''} | {', '.join(missed) or '-'} |")
+    esc = lambda x: x.replace('|', '\\|')
+    rows.append(f"| {name} | {esc(m.get('what_it_changes',''))} | {esc(m.get('needs_to_manifest',''))} | {'yes' if m.get('confirmed') else 'no'} | {', '.join(caught) or '-'}{(' (' + key + ')') if key and own in caught else ''} | {', '.join(missed) or '-'} |")
 print("| seeded change | what it changes | needs | confirmed | quick checks that report it | quick checks run that stay silent |")
 print("|---|---|---|---|---|---|")
 print("\n".join(rows))
